@@ -22,6 +22,7 @@ import (
 
 // Job is passed in env VERIF_JOB.
 type Job struct {
+	Thorough bool    `json:"thorough"` // deeper bounds per run (thorough tier)
 	Prop     string  `json:"prop"`
 	Mode     string  `json:"mode"` // gen | serve | selftest
 	Seed     uint64  `json:"seed"`
@@ -105,6 +106,7 @@ func TestWorker(t *testing.T) {
 		emit("OK", "selftest")
 		return
 	}
+	core.Thorough = job.Thorough
 	if job.Mode == "race" {
 		raceMode(job)
 		return
